@@ -2,8 +2,8 @@
 (***************************************************************************)
 (* Implementation-shaped specification of contracts/nns/contract.go and    *)
 (* contracts/nns/namestate.go (NameService: NEP-11 token, records,         *)
-(* resolution), followed by the properties C10, C11, C12 as predicates     *)
-(* over one step.                                                          *)
+(* resolution, registration price), followed by the properties C10, C11,   *)
+(* C12 and the extension X03 as predicates over one step.                  *)
 (*                                                                         *)
 (* Names are strings ("a.t"); their structure is given by the constant     *)
 (* function Par (parent of a name, Nil for a TLD), so a universe of        *)
@@ -28,6 +28,12 @@
 (*   rec[<<tok,n,ty>>]  0x22<key(tok)><key(n)><ty><id> as the sequence of  *)
 (*                  data ordered by id (ids are always 0..k-1)             *)
 (*   soa[n]         0x22<key(n)><key(n)><SOA><0>                           *)
+(*   price          0x10  registration price (extension X03), counted in   *)
+(*                  price units: the driver maps the model price P to      *)
+(*                  (P div 16) GAS + (P mod 16) fractions of 10^-8 GAS     *)
+(*                  (odd for P < 0), a strictly monotone map, so 0, 1 and  *)
+(*                  maxRegisterPrice + 1 are exact and everything fits     *)
+(*                  TLC's 32-bit integers                                  *)
 (*   now            time of the last block                                 *)
 (* ev is the last invocation with outcome and notifications.               *)
 (***************************************************************************)
@@ -44,6 +50,10 @@ CONSTANTS
   DataOf,     \* [type -> set of data values]
   YEAR,       \* units per year
   MaxRec,     \* 16 in the contract (maxRecordID + 1)
+  Prices,     \* argument range of setPrice (price units)
+  DefPrice,   \* defaultRegisterPrice stored by _deploy (10 GAS)
+  MaxPrice,   \* maxRegisterPrice (10 000 GAS)
+  GasCap,     \* GAS available to one transaction (the system fee the driver attaches at most): burning more FAULTs
   Dev         \* deviation switches: behaviour of the code that the properties forbid
 
 Nil      == "nil"
@@ -68,9 +78,9 @@ Below(n) == BelowF[n]
 The(S)   == CHOOSE x \in S : TRUE
 RecKeys  == {k \in NT \X NT \X OkTypes : k[1] = k[2] \/ k[1] \in Anc(k[2])}
 
-VARIABLES now, roots, ns, supply, bal, idx, rec, soa, ev
-store == <<roots, ns, supply, bal, idx, rec, soa>>
-vars  == <<now, roots, ns, supply, bal, idx, rec, soa, ev>>
+VARIABLES now, roots, ns, supply, bal, idx, rec, soa, price, ev
+store == <<roots, ns, supply, bal, idx, rec, soa, price>>
+vars  == <<now, roots, ns, supply, bal, idx, rec, soa, price, ev>>
 
 NoName == [ex |-> FALSE, owner |-> Nil, admin |-> Nil, exp |-> 0, ob |-> FALSE]
 NoSoa  == [ex |-> FALSE, mail |-> Nil, serial |-> 0, e |-> 0]
@@ -118,7 +128,7 @@ Range(s) == {s[i] : i \in 1..Len(s)}
 (* Methods                                                                 *)
 (***************************************************************************)
 Fault(act, S, via, n, o, m, x, ty, d) ==
-  /\ now' = now + 1 /\ UNCHANGED <<roots, ns, supply, bal, idx, rec, soa>>
+  /\ now' = now + 1 /\ UNCHANGED <<roots, ns, supply, bal, idx, rec, soa, price>>
   /\ ev' = Event(act, S, via, n, o, m, x, ty, d, "FAULT", "null", 0, NoNtf)
 
 Halt(act, S, via, n, o, m, x, ty, d, ret, retn, ntf) ==
@@ -134,7 +144,21 @@ Tick(d) ==
 Dec(B, o) == [B EXCEPT ![o] = @ - 1]
 Inc(B, o) == [B EXCEPT ![o] = @ + 1]
 
-\* RegisterTLD(name, email, refresh, retry, expire, ttl)
+\* runtime.BurnGas(g): FAULTs unless g is positive ("GAS must be positive") and fits the GAS that is left to the
+\* transaction ("GAS limit exceeded").  GasCap is the system fee the driver attaches at most; what the call consumes
+\* besides the burnt GAS stays far below 10 GAS, and the driver generates no burn within 10 GAS below the cap
+BurnOK(g) == g > 0 /\ g <= GasCap
+
+\* SetPrice(price): committee only, 0..maxRegisterPrice
+SetPrice(S, via, p) ==
+  LET W == Wit(S, via) IN
+  IF "CMT" \in W /\ p >= 0 /\ p <= MaxPrice
+  THEN /\ price' = p
+       /\ now' = now + 1 /\ UNCHANGED <<roots, ns, supply, bal, idx, rec, soa>>
+       /\ Halt("setPrice", S, via, Nil, Nil, Nil, p, Nil, Nil, "null", 0, NoNtf)
+  ELSE Fault("setPrice", S, via, Nil, Nil, Nil, p, Nil, Nil)
+
+\* RegisterTLD(name, email, refresh, retry, expire, ttl): nothing is burnt for a TLD (the price is not read)
 RegisterTLD(S, via, n, m, x) ==
   LET W == Wit(S, via) IN
   IF /\ "CMT" \in W
@@ -143,11 +167,14 @@ RegisterTLD(S, via, n, m, x) ==
   THEN /\ roots' = roots \cup {n}
        /\ ns' = [ns EXCEPT ![n] = [ex |-> TRUE, owner |-> Nil, admin |-> Nil, exp |-> now + x, ob |-> FALSE]]
        /\ soa' = [soa EXCEPT ![n] = [ex |-> TRUE, mail |-> m, serial |-> now, e |-> x]]
-       /\ now' = now + 1 /\ UNCHANGED <<supply, bal, idx, rec>>
+       /\ now' = now + 1 /\ UNCHANGED <<supply, bal, idx, rec, price>>
        /\ Halt("registerTLD", S, via, n, Nil, m, x, Nil, Nil, "null", 0, NoNtf)
   ELSE Fault("registerTLD", S, via, n, Nil, m, x, Nil, Nil)
 
-\* Register(name, owner, email, refresh, retry, expire, ttl)
+\* Register(name, owner, email, refresh, retry, expire, ttl).  After all checks of the caller and before the
+\* look at the name's own state the method burns GetPrice() GAS: with price 0 every registration of a
+\* non-TLD name FAULTs (also the one of a taken name that would return false), with a price above the
+\* transaction's GAS as well
 Register(S, via, n, o, m, x) ==
   LET W == Wit(S, via) IN
   IF /\ Level(n) > 1
@@ -156,8 +183,9 @@ Register(S, via, n, o, m, x) ==
      /\ Level(n) > 2 => AdminOK(ns[Par[n]], W)
      /\ ~ConflictIn(rec, n)
      /\ o \in W
+     /\ BurnOK(price)
   THEN IF AliveIn(ns, now, n)
-       THEN /\ now' = now + 1 /\ UNCHANGED <<roots, ns, supply, bal, idx, rec, soa>>
+       THEN /\ now' = now + 1 /\ UNCHANGED <<roots, ns, supply, bal, idx, rec, soa, price>>
             /\ Halt("register", S, via, n, o, m, x, Nil, Nil, "false", 0, NoNtf)
        ELSE LET old == IF ns[n].ex THEN ns[n].owner ELSE Nil
                 b1  == IF ns[n].ex THEN Dec(bal, old) ELSE bal
@@ -167,7 +195,7 @@ Register(S, via, n, o, m, x) ==
                 /\ soa' = [soa EXCEPT ![n] = [ex |-> TRUE, mail |-> m, serial |-> now, e |-> x]]
                 /\ bal' = Inc(b1, o)
                 /\ idx' = i1 \cup {<<o, n>>}
-                /\ now' = now + 1 /\ UNCHANGED <<roots, rec>>
+                /\ now' = now + 1 /\ UNCHANGED <<roots, rec, price>>
                 /\ Halt("register", S, via, n, o, m, x, Nil, Nil, "true", 0,
                         <<Ntf("Transfer", n, old, o, 1, 0)>>)
   ELSE Fault("register", S, via, n, o, m, x, Nil, Nil)
@@ -185,29 +213,30 @@ Transfer(S, via, n, o, enc) ==
   IF Level(n) > 1 /\ AliveIn(ns, now, n)
   THEN LET from == ns[n].owner IN
        IF from \notin W
-       THEN /\ now' = now + 1 /\ UNCHANGED <<roots, ns, supply, bal, idx, rec, soa>>
+       THEN /\ now' = now + 1 /\ UNCHANGED <<roots, ns, supply, bal, idx, rec, soa, price>>
             /\ Halt("transfer", S, via, n, o, Nil, 0, Nil, enc, "false", 0, NoNtf)
        ELSE /\ IF from # o \/ enc = "buf" \/ ns[n].ob
                THEN /\ ns' = [ns EXCEPT ![n].owner = o, ![n].admin = Nil, ![n].ob = (enc = "buf")]
                     /\ bal' = Inc(Dec(bal, from), o)
                     /\ idx' = (idx \ {<<from, n>>}) \cup {<<o, n>>}
                ELSE UNCHANGED <<ns, bal, idx>>
-            /\ now' = now + 1 /\ UNCHANGED <<roots, supply, rec, soa>>
+            /\ now' = now + 1 /\ UNCHANGED <<roots, supply, rec, soa, price>>
             /\ Halt("transfer", S, via, n, o, Nil, 0, Nil, enc, "true", 0,
                     <<Ntf("Transfer", n, from, o, 1, 0)>>)
   ELSE Fault("transfer", S, via, n, o, Nil, 0, Nil, enc)
 
-\* Renew(name, years)
+\* Renew(name, years): burns GetPrice() * years right after the range check of years, for TLDs as well
 Renew(S, via, n, y) ==
   LET W  == Wit(S, via)
       ex == ns[n].exp + y * YEAR
   IN
   IF /\ y >= 1 /\ y <= 10
+     /\ BurnOK(price * y)
      /\ StateOK(n, n)
      /\ AdminOK(ns[n], W)
      /\ Level(n) > 1 => ex <= now + 10 * YEAR
   THEN /\ ns' = [ns EXCEPT ![n].exp = ex]
-       /\ now' = now + 1 /\ UNCHANGED <<roots, supply, bal, idx, rec, soa>>
+       /\ now' = now + 1 /\ UNCHANGED <<roots, supply, bal, idx, rec, soa, price>>
        /\ Halt("renew", S, via, n, Nil, Nil, y, Nil, Nil, "int", ex, <<Ntf("Renew", n, Nil, Nil, ns[n].exp, ex)>>)
   ELSE Fault("renew", S, via, n, Nil, Nil, y, Nil, Nil)
 
@@ -219,7 +248,7 @@ SetAdmin(S, via, n, o) ==
      /\ StateOK(n, n)
      /\ ns[n].owner \in W
   THEN /\ ns' = [ns EXCEPT ![n].admin = o]
-       /\ now' = now + 1 /\ UNCHANGED <<roots, supply, bal, idx, rec, soa>>
+       /\ now' = now + 1 /\ UNCHANGED <<roots, supply, bal, idx, rec, soa, price>>
        /\ Halt("setAdmin", S, via, n, o, Nil, 0, Nil, Nil, "null", 0, <<Ntf("SetAdmin", n, ns[n].admin, o, 0, 0)>>)
   ELSE Fault("setAdmin", S, via, n, o, Nil, 0, Nil, Nil)
 
@@ -228,7 +257,7 @@ UpdateSOA(S, via, n, m, x) ==
   LET W == Wit(S, via) IN
   IF StateOK(n, n) /\ AdminOK(ns[n], W)
   THEN /\ soa' = [soa EXCEPT ![n] = [ex |-> TRUE, mail |-> m, serial |-> now, e |-> x]]
-       /\ now' = now + 1 /\ UNCHANGED <<roots, ns, supply, bal, idx, rec>>
+       /\ now' = now + 1 /\ UNCHANGED <<roots, ns, supply, bal, idx, rec, price>>
        /\ Halt("updateSOA", S, via, n, Nil, m, x, Nil, Nil, "null", 0, NoNtf)
   ELSE Fault("updateSOA", S, via, n, Nil, m, x, Nil, Nil)
 
@@ -257,7 +286,7 @@ AddRecord(S, via, n, ty, d) ==
        IF d \notin Range(L) /\ Len(L) < MaxRec /\ (ty = "CNAME" => Len(L) = 0) /\ SoaOK(tok)
        THEN /\ rec' = [rec EXCEPT ![<<tok, n, ty>>] = Append(L, d)]
             /\ soa' = Touch(tok)
-            /\ now' = now + 1 /\ UNCHANGED <<roots, ns, supply, bal, idx>>
+            /\ now' = now + 1 /\ UNCHANGED <<roots, ns, supply, bal, idx, price>>
             /\ Halt("addRecord", S, via, n, Nil, Nil, 0, ty, d, "null", 0, NoNtf)
        ELSE Fault("addRecord", S, via, n, Nil, Nil, 0, ty, d)
   ELSE Fault("addRecord", S, via, n, Nil, Nil, 0, ty, d)
@@ -273,7 +302,7 @@ SetRecordD(D, S, via, n, ty, id, d) ==
        IF id >= 0 /\ id < Len(L) /\ ("SetDuplicate" \in D \/ \A i \in 1..Len(L) : i # id + 1 => L[i] # d) /\ SoaOK(tok)
        THEN /\ rec' = [rec EXCEPT ![<<tok, n, ty>>] = [L EXCEPT ![id + 1] = d]]
             /\ soa' = Touch(tok)
-            /\ now' = now + 1 /\ UNCHANGED <<roots, ns, supply, bal, idx>>
+            /\ now' = now + 1 /\ UNCHANGED <<roots, ns, supply, bal, idx, price>>
             /\ Halt("setRecord", S, via, n, Nil, Nil, id, ty, d, "null", 0, NoNtf)
        ELSE Fault("setRecord", S, via, n, Nil, Nil, id, ty, d)
   ELSE Fault("setRecord", S, via, n, Nil, Nil, id, ty, d)
@@ -292,7 +321,7 @@ DeleteRecords(S, via, n, ty) ==
      /\ SoaOK(tok)
   THEN /\ rec' = IF ty \in OkTypes THEN [rec EXCEPT ![<<tok, n, ty>>] = <<>>] ELSE rec
        /\ soa' = Touch(tok)
-       /\ now' = now + 1 /\ UNCHANGED <<roots, ns, supply, bal, idx>>
+       /\ now' = now + 1 /\ UNCHANGED <<roots, ns, supply, bal, idx, price>>
        /\ Halt("deleteRecords", S, via, n, Nil, Nil, 0, ty, Nil, "null", 0, NoNtf)
   ELSE Fault("deleteRecords", S, via, n, Nil, Nil, 0, ty, Nil)
 
@@ -305,6 +334,7 @@ Init ==
   /\ bal = [o \in Owners |-> 0]
   /\ idx = {}
   /\ rec = [k \in RecKeys |-> <<>>]
+  /\ price = DefPrice
   /\ ev = Event("init", {}, FALSE, Nil, Nil, Nil, 0, Nil, Nil, "HALT", "null", 0, NoNtf)
 
 Vias == IF KC \in Owners THEN BOOLEAN ELSE {FALSE}
@@ -322,6 +352,7 @@ NextOf(P(_), PS(_)) ==
   \/ \E S \in PS(SignerSets), v \in P(Vias), n \in P(NT), ty \in P(RTypes) : \E d \in P(DataFor(ty)) : AddRecord(S, v, n, ty, d)
   \/ \E S \in PS(SignerSets), v \in P(Vias), n \in P(NT), ty \in P(RTypes), i \in P(Ids) : \E d \in P(DataFor(ty)) : SetRecord(S, v, n, ty, i, d)
   \/ \E S \in PS(SignerSets), v \in P(Vias), n \in P(NT), ty \in P(RTypes) : DeleteRecords(S, v, n, ty)
+  \/ \E S \in PS(SignerSets), v \in P(Vias), p \in P(Prices) : SetPrice(S, v, p)
 
 All(X) == X
 Next == NextOf(All, All)
@@ -382,6 +413,9 @@ MRes(n, ty, k, acc) ==
             IN  IF cn = <<>> \/ ty = "CNAME" THEN [ok |-> TRUE, v |-> acc \o mine]
                 ELSE The({MRes(x, ty, k - 1, a) : x \in {cn[Len(cn)]}, a \in {acc \o mine}})
 
+\* GetPrice
+MPrice == price
+
 ApiModel(D) ==
   [supply |-> supply,
    bal    |-> bal,
@@ -394,7 +428,8 @@ ApiModel(D) ==
    soa    |-> [n \in NT |-> MSoa(D, n)],
    all    |-> [n \in NT |-> MAll(D, n)],
    res    |-> [n \in NT |-> [ty \in OkTypes |-> MRes(n, ty, 2, <<>>)]],
-   resdot |-> [n \in NT |-> MRes(n, "A", 2, <<>>)]]
+   resdot |-> [n \in NT |-> MRes(n, "A", 2, <<>>)],
+   price  |-> MPrice]
 
 -----------------------------------------------------------------------------
 (***************************************************************************)
@@ -574,5 +609,21 @@ C12_ResolveDot(api) == \A n \in NT : api.resdot[n] = api.res[n]["A"]
 \* a name cannot be registered while its parent holds records for sub-names of it
 C12_RegisterConflict(G, e) ==
   e.act = "register" /\ Ok(e) /\ e.ret = "true" => ~GConflict(G, e.n)
+
+\* ---------------------------------------------------------------- X03 ----
+\* (extension, not one of the listed properties) the registration price.  pb / pa = the answer of getPrice()
+\* before / after the step.  C10/C11/C12 say nothing about the price: a register or renew that FAULTs
+\* because of the price is a refused step for them (GNext leaves G as it is, nothing may have changed).
+PriceSet(e) == e.act = "setPrice" /\ Ok(e)
+\* setPrice without the witness of the committee or with a price outside 0..maxRegisterPrice changes nothing
+X03_PriceGate(e, pb, pa) ==
+  e.act = "setPrice" /\ ("CMT" \notin Wit(e.S, e.via) \/ e.x < 0 \/ e.x > MaxPrice) =>
+     pa = pb /\ UNCHANGED store /\ e.ntf = NoNtf
+\* after a successful setPrice(p) getPrice() answers p, and the answer stays until the next successful setPrice
+X03_PriceStored(e, pb, pa) == IF PriceSet(e) THEN pa = e.x ELSE pa = pb
+\* what the code does while the price is 0: runtime.BurnGas(0) FAULTs, so no non-TLD name can be registered
+\* and nothing (TLDs included) can be renewed; registerTLD does not read the price
+X03_RegisterNeedsPrice(e, pb) ==
+  pb = 0 /\ e.act \in {"register", "renew"} => ~Ok(e) /\ UNCHANGED store /\ e.ntf = NoNtf
 
 =============================================================================
